@@ -11,7 +11,8 @@ RULE = ("A case is a generated handler program: up to 10 handler specs (event, p
         "and timed switch handler, completion callback). Non-trivial = the executed log contains a post made by a "
         "handler that itself ran for a handler-posted event (depth >= 2), or a registration/removal made during a "
         "dispatch, or a priority tie inside one dispatch, or a callback that posts, or a delay run_now()/switch hit issued by a "
-        "handler, or a wait_for_(any_)event / post_async future that resolved. Distinct = distinct case hash.")
+        "handler, or a wait_for_(any_)event / post_async future that resolved, or a handler blocked by a returned "
+        "_min_priority (handlers may carry a blocking facility). Distinct = distinct case hash.")
 ASSUMPTIONS = [
     "handlers never raise (an exception in a handler stops MPF by design)",
     "queue events are C02's domain and are not generated here",
